@@ -1,0 +1,77 @@
+"""Verification hooks (off unless the environment variable PYJSONPATH_VERIF is "1").
+
+Nothing here changes behaviour. With the guard on, filter resolutions and the memo
+cells of `CachingFilterExpression` report events to `sink` so that an external checker
+can validate the cache discipline: a cell belongs to the resolution that created it, is
+written once and is only read by that resolution.
+"""
+from __future__ import annotations
+
+import os
+from typing import Any
+from typing import Dict
+from typing import List
+
+ENABLED = os.environ.get("PYJSONPATH_VERIF") == "1"
+
+sink: List[Dict[str, Any]] = []
+_next_rid = 0
+_cell_owner: Dict[int, int] = {}
+_ctx_owner: Dict[int, int] = {}
+_keep: List[object] = []  # keeps hooked objects alive so that id() is never reused
+
+
+def reset() -> None:
+    """Forget everything recorded so far."""
+    global _next_rid
+    sink.clear()
+    _cell_owner.clear()
+    _ctx_owner.clear()
+    _keep.clear()
+    _next_rid = 0
+
+
+def resolution(filter_selector: object, expr: object, caching: bool) -> int:
+    """A filter selector starts resolving; _expr_ is the tree it will evaluate."""
+    global _next_rid
+    _next_rid += 1
+    rid = _next_rid
+    cells = []
+    if caching:
+        from .filter import CachingFilterExpression
+        from .filter import walk
+
+        for node in walk(expr):  # type: ignore[arg-type]
+            if isinstance(node, CachingFilterExpression):
+                cells.append(id(node))
+                _keep.append(node)
+                sink.append(
+                    {
+                        "e": "cell-created",
+                        "rid": rid,
+                        "cell": id(node),
+                        "fresh": id(node) not in _cell_owner,
+                    }
+                )
+                _cell_owner.setdefault(id(node), rid)
+    sink.append({"e": "resolution", "rid": rid, "caching": caching, "cells": len(cells)})
+    return rid
+
+
+def bind(context: object, rid: int) -> None:
+    """_context_ (one candidate's evaluation context) belongs to resolution _rid_."""
+    _keep.append(context)
+    _ctx_owner[id(context)] = rid
+
+
+def cell(cell_obj: object, context: object, hit: bool) -> None:
+    """A memo cell is read (hit) or written (miss) while evaluating _context_."""
+    sink.append(
+        {
+            "e": "cell",
+            "cell": id(cell_obj),
+            "owner": _cell_owner.get(id(cell_obj), 0),
+            "reader": _ctx_owner.get(id(context), 0),
+            "hit": hit,
+        }
+    )
